@@ -457,6 +457,13 @@ func (s *Sim) NetDial() func(ctx context.Context, network, addr string) (net.Con
 	return s.DialFn
 }
 
+// SetPolicy replaces the scheduling policy from a goroutine other than the driver.
+func (s *Sim) SetPolicy(p Policy) {
+	s.mu.Lock()
+	s.Policy = p
+	s.mu.Unlock()
+}
+
 // Quiet reports whether nothing but waiting harness goroutines (labels "wait-...") and clock ticks
 // is left to release: every other goroutine is blocked for good or gone, no delivery is pending.
 // For a harness goroutine that wants to look at the system at rest (it is the one that runs).
